@@ -301,12 +301,34 @@ func runC03Case(idx int, cs *c03Case) (res c03Result) { //nolint:cyclop,gocognit
 		if cs.Cred == "wrongPSK" {
 			sc.PSKc, sc.PSKs = "k1", "k2"
 		}
+
 	}
 	if cs.KeyType == "rsa" {
 		sc.Auth = "rsa"
 	}
 	// start from the generic option lists, then replace the credential-related options (later options win)
 	co, so := sc.buildOptions(&scenStores{})
+	if cs.Auth == "psk" && cs.Cred == "noPSK" {
+		// the honest side knows the key of its legitimate peer only; for any other identity its callback answers the way
+		// many applications do: no key, no error.  The rogue names such an identity and uses the empty key.
+		known := func(want string) func([]byte) ([]byte, error) {
+			return func(hint []byte) ([]byte, error) {
+				if string(hint) == want {
+					return []byte("k1"), nil
+				}
+
+				return nil, nil
+			}
+		}
+		empty := func([]byte) ([]byte, error) { return []byte{}, nil }
+		if cs.Honest == "s" {
+			so = append(so, WithPSK(known("lab-client")))
+			co = append(co, WithPSK(empty), WithPSKIdentityHint([]byte("nobody")))
+		} else {
+			co = append(co, WithPSK(known("lab-server")))
+			so = append(so, WithPSK(empty), WithPSKIdentityHint([]byte("nobody")))
+		}
+	}
 	var subst [][]byte
 	var otherKey crypto.Signer
 	if cs.Auth == "cert" { //nolint:nestif
